@@ -60,10 +60,11 @@ fn main() {
 struct Cx<'tcx> {
     tcx: TyCtxt<'tcx>,
     foreign_adts: BTreeMap<String, DefId>,
+    layouts: BTreeMap<String, (u64, u64)>,
 }
 
 fn dump<'tcx>(tcx: TyCtxt<'tcx>) -> J {
-    let mut cx = Cx { tcx, foreign_adts: BTreeMap::new() };
+    let mut cx = Cx { tcx, foreign_adts: BTreeMap::new(), layouts: BTreeMap::new() };
     let mut functions = Vec::new();
     for ldid in tcx.hir_body_owners() {
         let did = ldid.to_def_id();
@@ -100,8 +101,14 @@ fn dump<'tcx>(tcx: TyCtxt<'tcx>) -> J {
     for did in foreign {
         foreign_adts.push(cx.adt(did, false));
     }
+    let layouts: Vec<J> = cx
+        .layouts
+        .iter()
+        .map(|(k, (s, a))| J::Arr(vec![J::Str(k.clone()), J::Int(*s as i128), J::Int(*a as i128)]))
+        .collect();
     J::obj(vec![
         ("crate", J::s("a10")),
+        ("layouts", J::Arr(layouts)),
         ("functions", J::Arr(functions)),
         ("adts", J::Arr(adts)),
         ("foreign_adts", J::Arr(foreign_adts)),
@@ -201,6 +208,7 @@ impl<'tcx> Cx<'tcx> {
         v.push(("arg_count", J::Int(body.arg_count as i128)));
         let mut locals = Vec::new();
         for (_l, decl) in body.local_decls.iter_enumerated() {
+            self.note_layout(decl.ty);
             locals.push(J::obj(vec![
                 ("ty", J::Str(format!("{}", decl.ty))),
                 ("mut", J::Bool(decl.mutability.is_mut())),
@@ -237,6 +245,32 @@ impl<'tcx> Cx<'tcx> {
         }
         v.push(("blocks", J::Arr(blocks)));
         J::obj(v)
+    }
+
+    /// Record size/align of fully concrete types (and of the pointee of
+    /// references / raw pointers to them).
+    fn note_layout(&mut self, ty: ty::Ty<'tcx>) {
+        use rustc_middle::ty::TypeVisitableExt;
+        let tcx = self.tcx;
+        let mut t = ty;
+        loop {
+            if !t.has_non_region_param() && !t.has_escaping_bound_vars() {
+                let te = tcx.erase_and_anonymize_regions(t);
+                let key = format!("{}", te);
+                if !self.layouts.contains_key(&key) {
+                    if let Ok(l) = tcx.layout_of(TypingEnv::fully_monomorphized().as_query_input(te)) {
+                        if l.is_sized() {
+                            self.layouts.insert(key, (l.size.bytes(), l.align.abi.bytes()));
+                        }
+                    }
+                }
+            }
+            match t.kind() {
+                ty::Ref(_, inner, _) => t = *inner,
+                ty::RawPtr(inner, _) => t = *inner,
+                _ => break,
+            }
+        }
     }
 
     fn place(&mut self, body: &Body<'tcx>, p: Place<'tcx>) -> J {
